@@ -29,12 +29,12 @@ func init() {
 			collide := false
 			if r.Intn(5) == 0 {
 				for _, g := range t.Res {
-					if g.Gen || isClusterScoped(g.Kind) || t.predictedNS(g) == g.NS {
+					if g.Gen || g.clusterScoped() || t.predictedNS(g) == g.NS {
 						continue
 					}
 					L := t.Layers[g.Layer]
 					id := t.newID()
-					twin := Obj{"apiVersion": apiVersionOf(g.Kind), "kind": g.Kind, "metadata": meta(id, g.Name, "twin-ns", nil)}
+					twin := Obj{"apiVersion": g.Obj["apiVersion"], "kind": g.Kind, "metadata": meta(id, g.Name, "twin-ns", nil)}
 					fn := "twin.yaml"
 					L.ResF = append(L.ResF, fn)
 					L.Docs[fn] = []Obj{twin}
@@ -71,7 +71,7 @@ func init() {
 				d := bt[g.ID][0]
 				got := outNS(d)
 				want := t.predictedNS(g)
-				if isClusterScoped(g.Kind) {
+				if g.clusterScoped() {
 					if got != "" {
 						o.fail("cluster-scoped-got-namespace", fmt.Sprintf("cluster-scoped %s %s received namespace %q", g.Kind, g.Name, got), cs, t.Describe(), got, "")
 					}
